@@ -25,6 +25,28 @@ pub fn excerpt(text: &str, max: usize) -> String {
   text[..cut].to_string()
 }
 
+/// an excerpt whose tree has no zero-width recovery node (a cut in the middle of a block leaves a
+/// MISSING `}`; the parser library disagrees with itself about the siblings of such nodes, see C19)
+pub fn clean_excerpt(lang: SupportLang, text: &str, max: usize) -> Option<String> {
+  let mut cur = excerpt(text, max);
+  for _ in 0..40 {
+    if cur.trim().is_empty() {
+      return None;
+    }
+    let ok = {
+      let g = lang.ast_grep(cur.as_str());
+      zero_width_free(&g.root())
+    };
+    if ok {
+      return Some(cur);
+    }
+    let trimmed = cur.trim_end_matches('\n');
+    let cut = trimmed.rfind('\n').map(|i| i + 1)?;
+    cur.truncate(cut);
+  }
+  None
+}
+
 pub fn field_names(lang: SupportLang) -> Vec<String> {
   let l = lang.get_ts_language();
   (1..=l.field_count()).filter_map(|i| l.field_name_for_id(i).map(|s| s.to_string())).collect()
@@ -250,6 +272,49 @@ fn utils_reached_from_of_rules(rule: &R, utils: &BTreeMap<String, R>) -> std::co
   reach
 }
 
+/// C05 quantifies over variable-disjoint sub-patterns.  A utility whose patterns capture is a shared
+/// sub-pattern as soon as it is referenced twice (every use binds the same names in one environment),
+/// so the utilities used more than once -- counting uses through other utilities -- lose their captures.
+fn keep_variable_disjoint(rule: &R, utils: &mut BTreeMap<String, R>) -> usize {
+  fn walk(r: &R, utils: &BTreeMap<String, R>, uses: &mut BTreeMap<String, usize>, depth: usize) {
+    match r {
+      R::Matches(u) => {
+        *uses.entry(u.clone()).or_insert(0) += 1;
+        if depth < 12 {
+          if let Some(body) = utils.get(u) {
+            walk(body, utils, uses, depth + 1);
+          }
+        }
+      }
+      R::Obj(v) | R::All(v) | R::Any(v) => v.iter().for_each(|x| walk(x, utils, uses, depth)),
+      R::Not(x) => walk(x, utils, uses, depth),
+      R::Nth { of: Some(o), .. } => walk(o, utils, uses, depth),
+      R::Inside(x, s, _) | R::Has(x, s, _) | R::Precedes(x, s) | R::Follows(x, s) => {
+        walk(x, utils, uses, depth);
+        if let Stop::Rule(st) = s {
+          walk(st, utils, uses, depth);
+        }
+      }
+      _ => {}
+    }
+  }
+  let mut uses = BTreeMap::new();
+  walk(rule, utils, &mut uses, 0);
+  let mut changed = 0;
+  for (u, n) in uses {
+    if n > 1 {
+      if let Some(body) = utils.get(&u).cloned() {
+        let de = decapture_of_rules(&body, true);
+        if format!("{:?}", de) != format!("{:?}", body) {
+          changed += 1;
+        }
+        utils.insert(u, de);
+      }
+    }
+  }
+  changed
+}
+
 fn ops_sig(rule: &R, utils: &BTreeMap<String, R>) -> String {
   let mut ops: Vec<&str> = rule.operators();
   for u in utils.values() {
@@ -467,6 +532,10 @@ fn gen_utils(h: &rule::Harvest, rng: &mut Rng) -> BTreeMap<String, R> {
     let r = rule::gen_rule(h, &cfg, 0, rng);
     utils.insert(format!("U{i}"), r);
   }
+  if rng.chance(1, 4) && !h.kinds.is_empty() {
+    let other = utils.keys().next().cloned();
+    utils.insert("UR".to_string(), rule::gen_recursive_util(h, "UR", other.as_ref(), rng));
+  }
   utils
 }
 
@@ -497,9 +566,21 @@ pub fn run_source(lang: SupportLang, fname: &str, src: &str, n_rules: usize, max
     rep.count("sources_wide_node_shallow_rules", 1);
   }
   for k in 0..n_rules {
-    let utils = gen_utils(&h, rng);
+    let mut utils = gen_utils(&h, rng);
     let cfg = GenCfg { picks: std::cell::Cell::new(0), disjoint_vars: true, max_depth, utils: utils.keys().cloned().collect(), allow_field: true, allow_range: true };
-    let rule = rule::gen_rule(&h, &cfg, 0, rng);
+    let mut rule = rule::gen_rule(&h, &cfg, 0, rng);
+    if utils.contains_key("UR") && rng.chance(2, 3) {
+      // make sure the recursive utility is exercised
+      let m = R::Matches("UR".to_string());
+      rule = match rng.below(4) {
+        0 => R::Any(vec![rule, m]),
+        1 => R::All(vec![m, rule]),
+        2 => m,
+        _ => R::Has(Box::new(m), Stop::End, None),
+      };
+      rep.count("rules_with_recursive_utility", 1);
+    }
+    rep.count("utils_decaptured_because_used_twice", keep_variable_disjoint(&rule, &mut utils) as u64);
     let t_rule = std::time::Instant::now();
     let checked = match guarded(|| {
       let mut local = Report::new();
